@@ -13,7 +13,7 @@ from vv.core import Result, exc_violation, innermost_is_harness
 from vv.ref import layers as ref
 
 ID = 'C05'
-CASES = {'quick': 200, 'thorough': 3000}
+CASES = {'quick': 500, 'thorough': 30000}
 HANG_IS_VIOLATION = True
 RULE = ('Hypothesis draws a random DAG over 1..7 flow steps (drawn edge '
         'density: chains, diamonds, forests), 0..2 legacy derivers listed under '
